@@ -58,6 +58,7 @@ pub fn nonce_value(v: &Value) -> Result<u64, String> {
     match tag {
         "lo" => Ok(j),
         "top" => Ok(u64::MAX - j),
+        "pow" => Ok((1u64 << j) + a.get(2).and_then(|x| x.as_u64()).unwrap_or(0)),
         _ => Err(format!("bad nonce tag {tag}")),
     }
 }
@@ -142,6 +143,7 @@ impl Arena {
         match self.str(a[0])? {
             "lo" => Ok(j),
             "top" => Ok(u64::MAX - j),
+            "pow" => Ok((1u64 << j) + self.num(a[2])?),
             t => Err(format!("bad nonce tag {t}")),
         }
     }
@@ -192,9 +194,9 @@ impl<'a> Evaluator<'a> {
         let a = ar.arr(t)?;
         let tag = ar.str(a[0])?;
         match tag {
-            "a" => {
+            "a" | "ref" => {
                 let name = ar.str(a[1])?;
-                self.b.atoms.get(name).cloned().ok_or_else(|| format!("unbound atom {name}"))
+                self.b.atoms.get(name).cloned().ok_or_else(|| format!("unbound atom/ref {name}"))
             },
             "lit" => {
                 let id = ar.str(a[1])?;
